@@ -386,6 +386,17 @@ func (o *oracleState) c12(st *seqStep) {
 				st.before.Msize, st.cfg[1], showFcall(st.reply), st.after.Msize, st.after.Dotu))
 		}
 	}
+	// an I/O count the negotiated msize cannot carry is refused, never executed
+	if (t == "Tread" || t == "Twrite") && st.before.Msize >= g.IOHDRSZ {
+		cnt := uint32(atou(st.msg[3], 32))
+		if cnt > st.before.Msize-g.IOHDRSZ {
+			for _, cl := range st.calls {
+				if strings.HasPrefix(cl, "read:") || strings.HasPrefix(cl, "write:") {
+					o.fail("count-limit-not-enforced", st, fmt.Sprintf("%s count %d on msize %d reached the implementation: %v", t, cnt, st.before.Msize, st.calls))
+				}
+			}
+		}
+	}
 	if t == "Tread" && st.reply.Type == g.Rread {
 		if uint32(len(st.reply.Data)) > uint32(atou(st.msg[3], 32)) {
 			o.fail("read-exceeds-count", st, fmt.Sprintf("Tread count %s answered with %d bytes", st.msg[3], len(st.reply.Data)))
